@@ -699,6 +699,35 @@ type inputs struct {
 	evalOptCache map[string]fhirpath.EvaluateOption
 }
 
+// newEvaluation: an operation that calls Evaluate several times starts a new "one instant" window
+// for each call.
+func newEvaluation(oc *opCtx) {
+	if oc != nil {
+		oc.nowSet = false
+	}
+}
+
+// aliasesEnv reports whether the collection shares its backing array with one of the caller's
+// environment collections.
+func (r *inputs) aliasesEnv(c system.Collection) bool {
+	if cap(c) == 0 {
+		return false
+	}
+	p := uintptr(unsafe.Pointer(&c[:1][0]))
+	for _, v := range r.vars {
+		ev, ok := v.(system.Collection)
+		if !ok || cap(ev) == 0 {
+			continue
+		}
+		lo := uintptr(unsafe.Pointer(&ev[:1][0]))
+		hi := lo + uintptr(cap(ev))*unsafe.Sizeof(ev[:1][0])
+		if p >= lo && p < hi {
+			return true
+		}
+	}
+	return false
+}
+
 func (r *inputs) buildVar(i int, vs *VarSpec, built []any) (any, error) {
 	switch vs.Kind {
 	case "sys":
@@ -895,6 +924,7 @@ type opResult struct {
 	HasTime bool // the op carried its own OverrideTime
 	NowBad  bool // ctx.Now was not one value across the node entries of this op
 	Async   bool // the library ran part of the operation in goroutines of its own
+	Repeat  string // evalmut: the repeated call after the caller edited its result differs
 
 	probeList []string
 	Probes  string
@@ -1008,11 +1038,44 @@ func execOp(op *Op, oc *opCtx, p *compiled, in0 *inputs, entryOverride *time.Tim
 		}
 		// the caller edits the copies it was given (messages that are not elements of its input) ...
 		if err1 == nil {
+			// (elements of the shared inputs can come back through environment variables: they are
+			// input too, and other clients read them)
+			all := make(map[proto.Message]nodeRef, len(pidx)+len(in0.nodeIdx)+len(in0.callerMsgs))
+			for k, v := range pidx {
+				all[k] = v
+			}
+			for k, v := range in0.nodeIdx {
+				all[k] = v
+			}
+			for k := range in0.callerMsgs {
+				all[k] = nodeRef{}
+			}
 			for _, it := range c1 {
 				if m, ok := it.(proto.Message); ok {
-					if _, isNode := pidx[m]; !isNode {
-						scribble(m.ProtoReflect(), pidx)
+					if _, isNode := all[m]; !isNode {
+						scribble(m.ProtoReflect(), all)
 					}
+				}
+			}
+			// ... and the collection itself, which is the caller's from the moment it is returned
+			// (unless it is one of the caller's own environment collections, which other clients of
+			// this run read). Nothing else changed: the same call again gives the same result.
+			if !in0.aliasesEnv(c1) {
+				t0 := time.Now()
+				for i := range c1 {
+					c1[i] = system.String("edited-by-caller")
+				}
+				newEvaluation(oc)
+				c1b, err1b := p.fp.Evaluate(priv, opts...)
+				o1b := ""
+				if err1b != nil {
+					o1b = canonErr(err1b)
+				} else {
+					o1b = canonCollection(pidx, c1b)
+				}
+				injectedNow := oc != nil && oc.failFired
+				if o1b != o1 && !injectedNow && (!timeDependent(p.spec.Src) || (time.Now().Equal(t0) && res.Entry.Equal(t0))) {
+					res.Repeat = fmt.Sprintf("the caller overwrote the items of the collection it got back; the same Evaluate call again (same input, same options) gives %s, the first time it gave %s", short(o1b, 250), short(o1, 250))
 				}
 			}
 		}
@@ -1024,6 +1087,8 @@ func execOp(op *Op, oc *opCtx, p *compiled, in0 *inputs, entryOverride *time.Tim
 		for i, r := range priv {
 			indexNodes(pidx, i, r)
 		}
+		newEvaluation(oc)
+		t2 := time.Now()
 		c2, err2 := p.fp.Evaluate(priv, opts...)
 		o2 := ""
 		if err2 != nil {
@@ -1038,8 +1103,10 @@ func execOp(op *Op, oc *opCtx, p *compiled, in0 *inputs, entryOverride *time.Tim
 		for i, r := range priv {
 			fresh[i] = proto.Clone(r).(fhir.Resource)
 		}
+		newEvaluation(oc)
 		c3, err3 := p.fp.Evaluate(fresh, opts...)
-		if (err2 == nil) != (err3 == nil) || (err2 == nil && valueDigest(c2) != valueDigest(c3)) {
+		comparable := !(oc != nil && oc.failFired) && (!timeDependent(p.spec.Src) || time.Now().Equal(t2))
+		if comparable && ((err2 == nil) != (err3 == nil) || (err2 == nil && valueDigest(c2) != valueDigest(c3))) {
 			res.Stale = fmt.Sprintf("after the caller changed its input, evaluating that input gives %s but evaluating a deep copy of it gives %s", short(o2, 200), short(fmt.Sprintf("%v %v", valueDigest(c3), err3), 200))
 		}
 	case "str":
